@@ -4,6 +4,7 @@ import (
 	"fmt"
 	"net"
 	"net/netip"
+	"os"
 	"strconv"
 	"strings"
 	"sync"
@@ -827,9 +828,16 @@ func generate(r *lib.Run) {
 		r.Case("hw", toks, obs)
 	}
 	// truncated / corrupted frames of every kind between the well-formed ones (differential only)
-	for i := 0; i < 60*scale; i++ {
+	nhm := 60 * scale
+	if v := os.Getenv("C10_STRESS_HM"); v != "" { // stress run of this class only
+		nhm = atoi(v)
+	}
+	for i := 0; i < nhm; i++ {
 		r.Do("hm", g.malformedHistory(10+g.rng.Intn(25))...)
 		r.Stat("class.malformed", 1)
+	}
+	if os.Getenv("C10_STRESS_HM") != "" {
+		return
 	}
 	r.Stat("malformed.parse_rejected", malformedStats.parseErr)
 	r.Stat("malformed.rejected_but_tables_changed", malformedStats.rejectedChanged)
